@@ -587,6 +587,11 @@ def undefine_unused_variables(source: str, preserve: Collection[str] = frozenset
     """
     root = core.parse(source)
 
+    # If _ is read anywhere (e.g. _ = gettext.gettext), or must be preserved, it is a real
+    # variable rather than a placeholder for values that are thrown away.
+    if "_" in preserve or any(core.walk(root, ast.Name(id="_", ctx=ast.Load))):
+        return
+
     # It's sketchy to figure out if class properties and stuff are used. Will not
     # support this for the time being.
     class_body_blacklist = set()
